@@ -28,7 +28,10 @@ def crate_dir(name):
 
 
 def write_crate(name, main_rs, extra_files=None, bins=None):
-    """cases/<name>/ with its own workspace root (target dir shared through rt/.cargo/config.toml)."""
+    """cases/<name>/ with its own workspace root (target dir shared through rt/.cargo/config.toml).
+
+    bins: {bin name: source} — a sharded corpus, one binary per shard (rustc's memory grows with the crate, and cargo
+    builds the binaries of one package in parallel)."""
     d = crate_dir(name)
     os.makedirs(os.path.join(d, 'src'), exist_ok=True)
     cargo = '''[package]
@@ -36,6 +39,7 @@ name = "cases_%s"
 version = "0.0.0"
 edition = "2021"
 publish = false
+autobins = false
 
 [workspace]
 
@@ -49,10 +53,24 @@ debug = false
 incremental = false
 codegen-units = 16
 ''' % name.lower()
+    bindir = os.path.join(d, 'src', 'bin')
+    if bins:
+        os.makedirs(bindir, exist_ok=True)
+        for b in sorted(bins):
+            cargo += '\n[[bin]]\nname = "%s"\npath = "src/bin/%s.rs"\n' % (b, b)
+            _write_if_changed(os.path.join(bindir, b + '.rs'), bins[b])
+        for f in os.listdir(bindir):
+            if f.endswith('.rs') and f[:-3] not in bins:
+                os.remove(os.path.join(bindir, f))
+    else:
+        cargo += '\n[[bin]]\nname = "cases_%s"\npath = "src/main.rs"\n' % name.lower()
+        if os.path.isdir(bindir):
+            shutil.rmtree(bindir)
     _write_if_changed(os.path.join(d, 'Cargo.toml'), cargo)
     os.makedirs(os.path.join(d, '.cargo'), exist_ok=True)
     _write_if_changed(os.path.join(d, '.cargo', 'config.toml'), '[net]\noffline = true\n[build]\ntarget-dir = "../../target"\n')
-    _write_if_changed(os.path.join(d, 'src', 'main.rs'), main_rs)
+    if not bins:
+        _write_if_changed(os.path.join(d, 'src', 'main.rs'), main_rs)
     for rel, content in (extra_files or {}).items():
         p = os.path.join(d, rel)
         os.makedirs(os.path.dirname(p), exist_ok=True)
@@ -71,9 +89,16 @@ def _write_if_changed(path, content):
         f.write(content)
 
 
-def cargo_build(d, timeout=1800, bin_name=None):
-    """Build; returns (ok, diagnostics[list of rustc json messages], wall). Warnings are diagnostics too."""
-    cmd = ['cargo', 'build', '--offline', '--message-format=json', '-q']
+JOBS = int(os.environ.get('VERIF_JOBS', '8'))
+SHARD = int(os.environ.get('VERIF_SHARD', '1500'))
+LAST_EXES = {}
+
+
+def cargo_build(d, timeout=3600, bin_name=None):
+    """Build; returns (ok, diagnostics[list of rustc json messages], exe, wall, stderr). Warnings are diagnostics too.
+    The executables of a sharded crate are left in LAST_EXES (bin name -> path)."""
+    cmd = ['cargo', 'build', '--offline', '--message-format=json', '-q', '-j', str(JOBS)]
+    LAST_EXES.clear()
     t0 = time.time()
     env = dict(os.environ)
     env['CARGO_NET_OFFLINE'] = 'true'
@@ -92,14 +117,15 @@ def cargo_build(d, timeout=1800, bin_name=None):
             diags.append(m)
         elif m.get('reason') == 'compiler-artifact' and m.get('executable'):
             exe = m['executable']
+            LAST_EXES[m.get('target', {}).get('name')] = exe
     return p.returncode == 0, diags, exe, wall, p.stderr
 
 
-def run_exe(exe, out_path, env=None, timeout=1800):
+def run_exe(exe, out_path, env=None, timeout=1800, append=False):
     e = dict(os.environ)
     if env:
         e.update(env)
     t0 = time.time()
-    with open(out_path, 'w') as f:
+    with open(out_path, 'a' if append else 'w') as f:
         p = subprocess.run([exe], stdout=f, stderr=subprocess.PIPE, text=True, env=e, timeout=timeout)
     return p.returncode, p.stderr, time.time() - t0
